@@ -65,6 +65,22 @@ def store(seedid, prop, patch, demo, destdir, module, pattern, pkg, needs):
     json.dump(meta, open(os.path.join(d, "meta.json"), "w"), indent=1)
     print("stored", d)
 
+def storedir(seedid, prop, patch, demodir, runcmd, confirmed, needs):
+    d = os.path.join("/verif/seeded", seedid)
+    os.makedirs(d, exist_ok=True)
+    shutil.copy(patch, os.path.join(d, "patch.diff"))
+    shutil.copytree(demodir, os.path.join(d, "demo"), dirs_exist_ok=True)
+    notes = patch[:-5] + ".txt"
+    meta = {
+        "id": seedid, "breaks_property": prop, "needs_to_manifest": needs,
+        "author_notes": open(notes).read() if os.path.exists(notes) else "",
+        "demonstration": {"dir": "demo", "run": runcmd},
+        "confirmed": confirmed, "detected_by": {},
+    }
+    json.dump(meta, open(os.path.join(d, "meta.json"), "w"), indent=1)
+    print("stored", d)
+
+
 def detect(seedid, prop, tier="quick"):
     d = os.path.join("/verif/seeded", seedid)
     rc, out = sh("git -C /repo status --porcelain")
@@ -98,5 +114,7 @@ if __name__ == "__main__":
         sys.exit(0 if verify(*a[1:8]) else 1)
     if a[0] == "store":
         store(a[1], a[2], a[3], a[4], a[5], a[6], a[7], a[8], " ".join(a[9:]))
+    if a[0] == "storedir":
+        storedir(a[1], a[2], a[3], a[4], a[5], a[6], " ".join(a[7:]))
     if a[0] == "detect":
         sys.exit(detect(*a[1:]))
